@@ -35,6 +35,8 @@ pub fn texts() -> Vec<(Vec<u8>, String)> {
         (long.as_bytes().to_vec(), long.clone()),
         (b"".to_vec(), "".into()),
         (b"a* (glob+)".to_vec(), "a* (glob+)".into()),
+        // an optional expectation that matches nothing in the alphabet: skipped silently by the diff (numbering must still fit)
+        (b"o".to_vec(), "zzz (?)".into()),
     ]
 }
 
@@ -44,6 +46,8 @@ pub enum Atom {
     /// expectations (text indices) and output lines (text indices); built by the real validate
     Malformed { exps: Vec<usize>, lines: Vec<usize>, final_newline: bool },
     InvalidExit { actual: i32, expected: Option<i32>, line: usize },
+    /// a long expectation list: `len` expectations, all optional and unmatched except a required unmatched one at `required_at`; `lines` output lines `x`
+    LongList { len: usize, required_at: usize, lines: usize },
     Internal,
     Timeout,
     Skipped,
@@ -99,6 +103,18 @@ fn build_outcome(i: usize, atom: &Atom, case: &RenderCase) -> Option<(Outcome, &
             let r = tc.validate(&output);
             if !matches!(r, Err(TestCaseError::MalformedOutput(_))) {
                 return None; // this pair passes: not a malformed-output atom
+            }
+            (r, "malformed_output")
+        }
+        Atom::LongList { len, required_at, lines } => {
+            for k in 0..*len {
+                let text = if k == *required_at { "missing".to_string() } else { format!("o{k} (?)") };
+                tc.expectations.push(MAKER.with(|m| m.parse(&text)).ok()?);
+            }
+            output.stdout = "x\n".repeat(*lines).into_bytes().into();
+            let r = tc.validate(&output);
+            if !matches!(r, Err(TestCaseError::MalformedOutput(_))) {
+                return None;
             }
             (r, "malformed_output")
         }
@@ -230,7 +246,21 @@ impl Engine for VcRender {
                 })
             })
         });
-        Box::new(lists.chain(singles))
+        // (c) long expectation lists with silently skipped optional expectations: the numbering crosses a power of ten
+        let params3: Vec<(u8, bool, usize)> = vec![(0, false, 5), (1, false, 0), (1, true, 5), (2, false, 5), (3, false, 5), (5, false, 5)];
+        let long = [9usize, 10, 11, 12].into_iter().flat_map(move |len| {
+            let params3 = params3.clone();
+            (0..len).flat_map(move |required_at| {
+                let params3 = params3.clone();
+                [0usize, 1, 3].into_iter().flat_map(move |lines| {
+                    let params3 = params3.clone();
+                    [1usize, 89, 98].into_iter().flat_map(move |line_number| {
+                        params3.clone().into_iter().map(move |(renderer, absolute, surrounding)| RenderCase { atoms: vec![Atom::LongList { len, required_at, lines }], location: true, cram: false, ascii: false, line_number, renderer, absolute, surrounding })
+                    })
+                })
+            })
+        });
+        Box::new(lists.chain(long).chain(singles))
     }
     fn bound(&self, tier: Tier) -> String {
         let (max_e, max_l, list_len) = match tier {
@@ -238,7 +268,7 @@ impl Engine for VcRender {
             Tier::Thorough => (2, 2, 3),
         };
         format!(
-            "(a) single failed outcomes whose diff is produced by the real validate for every expectation list <= {max_e} x output <= {max_l} lines over {} texts (multi-byte, wide, trailing Unicode whitespace, NUL, ESC, 0xFF, 10000-char line, empty, glob) with/without final newline x both escapers x line numbers {{1,98,9999}} x 16 renderer settings (pretty colour/mono x relative/absolute x 0/1/5 surrounding lines; diff; json; json pretty; yaml); (b) all outcome lists of length <= {list_len} over 7 representatives of the result kinds x location present/absent x escaper x the same renderer settings",
+            "(a) single failed outcomes whose diff is produced by the real validate for every expectation list <= {max_e} x output <= {max_l} lines over {} texts (multi-byte, wide, trailing Unicode whitespace, NUL, ESC, 0xFF, 10000-char line, empty, glob) with/without final newline x both escapers x line numbers {{1,98,9999}} x 16 renderer settings (pretty colour/mono x relative/absolute x 0/1/5 surrounding lines; diff; json; json pretty; yaml); (c) expectation lists of 9..12 entries of which all but one are optional and skipped (line numbering crosses 10 / 100), x 0/1/3 output lines x line numbers {{1,89,98}}; (b) all outcome lists of length <= {list_len} over 7 representatives of the result kinds x location present/absent x escaper x the same renderer settings",
             texts().len()
         )
     }
@@ -468,6 +498,7 @@ impl Engine for VcRender {
             .iter()
             .map(|a| match a {
                 Atom::Malformed { exps, lines, .. } => 10 + exps.len() * 10 + lines.len() * 10 + exps.iter().chain(lines.iter()).sum::<usize>(),
+                Atom::LongList { len, required_at, lines } => 500 + len * 10 + required_at + lines,
                 _ => 5,
             })
             .sum();
